@@ -40,9 +40,25 @@ def scenario(name, family, html, files=None, user_css=None, expect=None, engines
 
 
 def write_all():
-    if os.path.isdir(OUT):
-        shutil.rmtree(OUT)
-    os.makedirs(OUT)
+    # written next to the live corpus and swapped in with two renames, so that checks
+    # running concurrently never see a half-written corpus
+    final = OUT
+    tmp = OUT + ".new"
+    if os.path.isdir(tmp):
+        shutil.rmtree(tmp)
+    os.makedirs(tmp)
+    _write_into(tmp)
+    old = OUT + ".old"
+    if os.path.isdir(old):
+        shutil.rmtree(old)
+    if os.path.isdir(final):
+        os.rename(final, old)
+    os.rename(tmp, final)
+    if os.path.isdir(old):
+        shutil.rmtree(old)
+
+
+def _write_into(OUT):
     for name, s in sorted(SCEN.items()):
         d = os.path.join(OUT, name)
         os.makedirs(d)
@@ -1008,8 +1024,35 @@ def gen_collide():
     scenario("feat-09", "feat", doc(css, "\n".join(body)), expect=dict(margin=True, page_w=240, page_h=150, line_height=12))
 
 
+def gen_ow():
+    # orphans / widows at every phase: paragraphs of exactly orphans+widows lines (and one more, one less)
+    # preceded by 0..L-1 filler lines, so that each of them meets the page bottom with every number of lines left
+    for n, (o, w, H) in enumerate([(2, 2, 94), (3, 2, 106), (1, 3, 82), (2, 3, 118)], start=1):
+        L = (H - 20) // 12  # lines per page
+        css = page_css(220, H, 10) + BASE + "p { margin: 0; orphans: %d; widows: %d }\n" % (o, w)
+        body, flow, paras = [], [], []
+        wi = 1
+
+        def P(nlines):
+            nonlocal wi
+            k = nlines * 4  # 4 words of 4 chars per line: 4*40 + 3*10 = 190 <= 200 content width
+            ws = words("w", k, wi); wi += k
+            flow.extend(ws); paras.append(ws)
+            body.append(para(ws))
+        for phase in range(L + 2):
+            for _ in range(phase % L + 1):
+                P(1)
+            P(o + w)
+            P(o + w + 1)
+            if o + w - 1 >= 2:
+                P(o + w - 1)
+        scenario("ow-%02d" % n, "ow", doc(css, "\n".join(body)),
+                 expect=dict(flows={"main": flow}, margin=True, page_w=220, page_h=H, conserve=True, geometry=True, fits_page=True, line_height=12, paras=paras, orphans=o, widows=w))
+
+
 def main():
     gen_pag()
+    gen_ow()
     gen_collide()
     gen_pag4()
     gen_geo()
